@@ -27,6 +27,13 @@ def gen_spec(prop, rng, tier):
     sets = []
     for k in range(nsets):
         wl = gen.gen_workload(rng, weights=[25, 55, 12, 2, 1, 3, 2])
+        if rng.random() < 0.2:
+            # zero-length sequences, sometimes the majority of the set ("varying inputs"; the library drops them)
+            n0 = len(wl['seqs'])
+            for _ in range(rng.randint(1, max(1, n0 + 2))):
+                pos = rng.randrange(len(wl['seqs']) + 1)
+                wl['seqs'].insert(pos, ''); wl['names'].insert(pos, 'e')
+            wl['names'] = ['%s.%d' % (nm.split('.')[0][:16], i) for i, nm in enumerate(wl['names'])]
         sets.append(wl)
     files = {}
     for k, wl in enumerate(sets):
